@@ -14,7 +14,7 @@ from declib2 import fill, Dec2, gen_block, spec, model1, has_zero_offset
 from capi import Lib
 from vlib import Oracle, build_lib, hx, md5
 
-THEOREMS = ["C05_valid_decodes", "C05_valid_decodes_safe", "C05_continue_step", "C05_success_sound", "C05_success_sound_strict_refuted"]
+THEOREMS = ["C05_valid_decodes", "C05_valid_decodes_safe", "C05_continue_step", "C05_success_sound", "C05_success_sound_strict_refuted", "C05_inplace_margin"]
 ORACLES = ["block", "dec2"]
 CORRESPONDENCE = [
     "dec_generic/decompress_usingDict model == LZ4_decompress_safe(_usingDict) on valid blocks (return value, whole destination image), fast loop on",
@@ -51,6 +51,8 @@ def gen_cases(tier, seed):
         cases.append({"kind": "stream", "bseed": rng.randrange(1 << 48), "geom": declib2.GEOMS2[i % len(declib2.GEOMS2)], "big": (i % 11 == 10)})
     for i in range(nc):
         cases.append({"kind": "converse", "bseed": rng.randrange(1 << 48), "count": 60})
+    for i in range({"quick": 6, "search": 12, "thorough": 40}[tier]):
+        cases.append({"kind": "inplace", "bseed": rng.randrange(1 << 48), "count": 150})
     cases.append({"kind": "f5", "bseed": 0})
     rng.shuffle(cases)
     # regression corpus of finding F14 (fixed in /repo): the 16 one-byte empty blocks x capacity 0; runs first
@@ -265,6 +267,66 @@ def run_case(st, case):
                 blk = bytes(rng.choice([0, 1, 0x0f, 0x10, 0xf0, 0xff, rng.randrange(256)]) for _ in range(n))
                 Dlen = rng.choice([0, 10, 100, 1000])
             check_converse(st, rng, res, blk, hist, Dlen)
+    elif kind == "inplace":
+        # in-place decoding at the documented margin: blocks whose tail keeps the input cursor as close to the
+        # output cursor as the format allows (match lengths = 1, 2, 3 mod 32 so that LZ4_wildCopy32 overshoots by
+        # 31, 30, 29; literal runs at the 255-chain boundaries 15 + 255k - 1 .. + 1; long early matches so that the
+        # block still shrinks).  F16 corpus first: 16 literals | offset 16, length 33 | 65 literals.
+        for j in range(case["count"]):
+            seqs = []
+            if j == 0:
+                seqs, l2 = [(16, 16, 33)], 65
+            else:
+                first = True
+                for s_ in range(rng.choice([1, 1, 2, 3, 4])):
+                    ll = rng.choice([rng.randrange(40), 15 + 255 * rng.randrange(4) + rng.randrange(-1, 2), rng.randrange(600)])
+                    if first:
+                        ll = max(ll, 16)
+                    ml = rng.choice([32 * rng.randrange(1, 13) + rng.randrange(1, 4), 4 + rng.randrange(400)])
+                    if first and rng.random() < 0.3:
+                        ml = 2000 + rng.randrange(3000)
+                    off = rng.choice([16, rng.randrange(1, 17), rng.randrange(16, 33) if ll >= 32 or not first else 16])
+                    seqs.append((ll, off, ml)); first = False
+                l2 = rng.choice([5 + rng.randrange(80), 15 + 255 * rng.randrange(5) + rng.randrange(-1, 2), 64 + rng.randrange(1200)])
+                if seqs[-1][2] + l2 < 12:
+                    l2 = 12
+            blk = bytearray()
+            def ext(v):
+                o = bytearray()
+                while v >= 255:
+                    o.append(255); v -= 255
+                o.append(v); return o
+            for (ll, off, ml) in seqs:
+                blk.append((min(ll, 15) << 4) | min(ml - 4, 15))
+                if ll >= 15: blk += ext(ll - 15)
+                blk += rng.randbytes(ll)
+                blk += bytes([off & 255, off >> 8])
+                if ml - 4 >= 15: blk += ext(ml - 4 - 15)
+            blk.append(min(l2, 15) << 4)
+            if l2 >= 15: blk += ext(l2 - 15)
+            blk += rng.randbytes(l2)
+            blk = bytes(blk)
+            D = spec(st["spec"], "strict", b"", blk)
+            if D is None:
+                fail(res, "harness_error", "in-place generator produced a block the specification rejects", blk=blk.hex()[:4000])
+                continue
+            n = len(D)
+            if len(blk) >= n:
+                continue
+            res["stats"]["inplace_blocks"] += 1
+            res["keys"].add(hashlib.sha1(blk).hexdigest())
+            for capmode in (0, 1):
+                for bname, dec in st["libs"].items():
+                    x = dec.run_inplace(blk, n, capmode, rng.randrange(256))
+                    if x is None:
+                        continue
+                    r, img = x
+                    res["evals"] += 1
+                    res["stats"]["api_inplace"] += 1
+                    if r != n or img != D:
+                        fail(res, "prop_fail", "in-place decoding in a buffer of LZ4_DECOMPRESS_INPLACE_BUFFER_SIZE(%d) bytes returned %d, content %s (sequences %s, last literals %d)"
+                             % (n, r, "equal" if img == D else "DIFFERS", seqs[:4], l2),
+                             blk=blk.hex() if len(blk) < 4000 else "len=%d" % len(blk), api="inplace", capmode=capmode, build=bname, seqs=seqs, lastlits=l2)
     elif kind == "f14":
         for tok in range(16):
             blk = bytes([tok])
